@@ -54,7 +54,7 @@ impl Ctx {
 
 /// Properties whose monitors have a `case` driven by one generator stream; the coverage-guided
 /// stage feeds that stream from the fuzzer's bytes (a "decision tape") instead of the PRNG.
-pub const GUIDED_PROPS: [&str; 6] = ["C01", "C02", "C03", "C04", "C05", "C15"];
+pub const GUIDED_PROPS: [&str; 8] = ["C01", "C02", "C03", "C04", "C05", "C13", "C14", "C15"];
 
 /// Run one case of `prop`'s monitor with the generator's decisions read from `tape`.
 /// Violations carry the tape as their replay coordinates.
@@ -70,6 +70,13 @@ pub fn guided_case(prop: &str, tape: &[u8]) -> Report {
         "C04" => mon::c04::case(&ctx, 0, 0, rep),
         "C05" => mon::c05::case(&ctx, 0, 0, rep),
         "C15" => mon::c15::case(&ctx, 0, 0, rep),
+        "C14" => mon::c14::case(&ctx, 0, 0, rep),
+        "C13" => {
+            // size and quantiser choice come from the first three bytes of the tape
+            let (w, h, k) = (1 + tape[0] as usize % 96, 1 + tape[1] as usize % 96, (tape[2] % 3) as u64);
+            util::set_decision_tape(&tape[3..]);
+            mon::c13::case(&ctx, w, h, k, rep)
+        }
         _ => {}
     });
     util::clear_decision_tape();
